@@ -29,10 +29,17 @@ def explore(ctx, depth):
 
     def add(inc, exc, enc):
         v = tuple(docrun.valid_idx(inc, exc))
-        if (v, enc) in seen:
+        # de-duplicate by the selected set of the specification AND by what the implementation's own `valid` makes of the pair:
+        # a pair on which the two differ is always exported
+        try:
+            vi = tuple(sorted(c.value - 1 for c in TC.valid(include=inc, exclude=exc)))
+        except Exception:  # noqa
+            vi = ('raises',)
+        if (v, vi, enc) in seen:
             return
-        seen.add((v, enc))
+        seen.add((v, vi, enc))
         combos.append({'enc': enc, 'include': inc, 'exclude': exc})
+    docrun.prefetch_valid([([a], None) for a in cats] + [(None, [a]) for a in cats] + [([a], [b]) for a in cats for b in cats])
     for a in cats:
         add([a], None, 'ekern')
         add(None, [a], 'ekern')
